@@ -76,6 +76,19 @@ def same_structure(ctx, key, what, orig, back, replay, allow_nan_extra=False):
     return ok
 
 
+def align_dims(orig, back):
+    """`back` with every array transposed to the dimension order of its counterpart in `orig` (where the dimension sets agree): for
+    comparisons that are about values and labels, not about the order of dimensions"""
+    import xarray as xr
+    if isinstance(orig, list) and isinstance(back, list) and len(orig) == len(back):
+        return [align_dims(a, b) for a, b in zip(orig, back)]
+    if isinstance(orig, xr.Dataset) and isinstance(back, xr.Dataset) and list(orig.data_vars) == list(back.data_vars):
+        return xr.Dataset({v: align_dims(orig[v], back[v]) for v in orig.data_vars})
+    if isinstance(orig, xr.DataArray) and isinstance(back, xr.DataArray) and set(orig.dims) == set(back.dims):
+        return back.transpose(*orig.dims)
+    return back
+
+
 def item_for_model(da, sample_dims, ns_expected):
     """shape, row-major data and dimension order (sample dims first, in the user's order) of one item"""
     dims = list(da.dims)
@@ -209,6 +222,33 @@ def run(ctx):
                                obj, back2, replay)
             except Exception as e:
                 ctx.violation(key + ":roundtrip-after-transform:error:" + C.errkind(e), "Preprocessor.transform(other data) / inverse raised %r on layout %s" % (e, tag), replay)
+        # ---- 1c. the same data in another presentation (every array transposed, each list item its own way): values stay at their labels
+        if ok1 and lay["multiindex"] is None:
+            def turned(o, q=0):
+                if isinstance(o, list):
+                    return [turned(x, j + 1) for j, x in enumerate(o)]
+                if isinstance(o, xr.Dataset):
+                    return o.transpose(*list(o.dims)[::-1])
+                dd = list(o.dims)
+                return o.transpose(*(dd[::-1] if q % 2 == 0 else dd[1:] + dd[:1]))
+            try:
+                back3 = pp.inverse_transform_data(pp.transform(turned(obj)))
+                same_structure(ctx, key + ":roundtrip-of-transposed-data", "Preprocessor.inverse_transform_data(transform(x transposed)) on %s" % tag, obj, back3, replay)
+                if isinstance(obj, list) or len(sdims) >= 2:
+                    pq = Preprocessor(sample_name=sname, feature_name=fname, with_center=False, with_std=False, with_coslat=False)
+                    back4 = pq.inverse_transform_data(pq.fit_transform(turned(obj), tuple(sdims)))
+                    same_structure(ctx, key + ":roundtrip-fitted-on-transposed-data", "Preprocessor round trip fitted on x with every item transposed its own way, on %s" % tag,
+                                   turned(obj), align_dims(turned(obj), back4), replay)
+                    if isinstance(obj, list):
+                        # ... and the rows of the internal matrix pair the same samples of every item: a second fit on the transposed items gives
+                        # the same matrix up to the order of rows
+                        A = np.asarray(X2.transpose(sname, fname).values, dtype=float)
+                        B = np.asarray(pq.fit_transform(turned(obj), tuple(sdims)).transpose(sname, fname).values, dtype=float)
+                        if A.shape != B.shape or sorted(map(tuple, np.sort(A, axis=1).tolist())) != sorted(map(tuple, np.sort(B, axis=1).tolist())):
+                            ctx.violation(key + ":rows-pair-other-samples", "the stacked matrix of the transposed list items pairs other samples of the items in its rows "
+                                          "than the matrix of the items as given (layout %s)" % tag, replay)
+            except Exception as e:
+                ctx.violation(key + ":roundtrip-of-transposed-data:error:" + C.errkind(e), "Preprocessor on transposed data raised %r on layout %s" % (e, tag), replay)
         # ---- 2. the model of the stacking order (DataArray / equal-dim Dataset / list; MultiIndex dims are
         #         opaque single dims for the model)
         if lay["multiindex"] is None and not (lay["container"] == "Dataset" and lay["ds_mode"] == "different"):
